@@ -120,8 +120,8 @@ def rule_flow(ctx):
     prog = ctx.prog
     g = prog.one('ChainStorage::get_block')
     ctx.touch(g)
-    rec = '(get(self.chain_index, a2) as Some).0'
-    ent = '(get_mut(self.blk_files, %s.blk_index) as Some).0' % rec
+    rec = 'get(self.chain_index, a2)?'
+    ent = 'get_mut(self.blk_files, %s.blk_index)?' % rec
     rd = [cs for cs in g.calls if mir.method_name(cs.name) == 'read_block']
     ctx.check('flow', 'single-read', len(rd) == 1, g, '%d read_block call(s)' % len(rd))
     for cs in rd:
@@ -147,7 +147,7 @@ def rule_flow(ctx):
             rets[canon(g.rvalue_expr(d[3]))] = util.guards_at(g, d[1])
     ctx.check('flow', 'none-iff-not-indexed', rets.get('Result::Ok{0: Option::None{}}') == ['get(self.chain_index, a2) is None'], g, 'Ok(None) under %s' % rets.get('Result::Ok{0: Option::None{}}'))
     okk = [k for k in rets if k.startswith('Result::Ok{0: Option::Some')]
-    ctx.check('flow', 'delivers-the-read-block', okk == ['Result::Ok{0: Option::Some{0: (read_block(%s, %s.data_offset, self.coin) as Ok).0}}' % (ent, rec)], g, '%s' % okk)
+    ctx.check('flow', 'delivers-the-read-block', okk == ['Result::Ok{0: Option::Some{0: read_block(%s, %s.data_offset, self.coin)?}}' % (ent, rec)], g, '%s' % okk)
     # the file map is the one built by the directory scan
     st = prog.one('ChainStorage::new')
     ctx.touch(st)
@@ -190,10 +190,10 @@ def rule_files(ctx):
     if len(ins) != 1:
         raise Unrecognised('files', 'expected one insertion in the directory scan')
     cs = ins[0]
-    path = 'resolve_path((each(read_dir(a1)?) as Ok).0)?'
-    name = 'ok_or(to_str(ok_or(file_name(%s), "Unable to get filename from path")?), "Unable to convert filename to string")?' % path
+    path = 'resolve_path(each(read_dir(a1)?)?)?'
+    name = 'to_str(file_name(%s)?)?' % path
     a = [canon(x) for x in fp.arg_exprs(cs)]
-    idx = '(parse_blk_index(%s, "blk", ".dat") as Some).0' % name
+    idx = 'parse_blk_index(%s, "blk", ".dat")?' % name
     ctx.check('files', 'keyed-by-parsed-number', a[1] == idx, cs, 'key = %s' % a[1][:90])
     ctx.check('files', 'value-is-this-entrys-path', a[2] == 'new(%s, read_xor_key(join(a1, "xor.dat"))?)' % path, cs, 'value = %s' % a[2])
     g = util.guards_at(fp, cs.bb)
